@@ -54,6 +54,14 @@ fn main() {
         }
         return;
     }
+    if args[1] == "--ast" && args.len() > 2 {
+        let text = std::fs::read_to_string(&args[2]).expect("read program");
+        match impl_run::parse(&text) {
+            Ok(p) => println!("{:?}", p),
+            Err(e) => println!("{}", e.to_json()),
+        }
+        return;
+    }
     if args[1] == "--corpus" {
         let all = corpus::candidates();
         let acc = corpus::accepted();
